@@ -15,6 +15,7 @@ import (
 	"sync"
 	"time"
 
+	"github.com/gorilla/securecookie"
 	"github.com/gorilla/sessions"
 )
 
@@ -56,6 +57,13 @@ const (
 	//    - Solving for x: x ≤ 3044
 	// 4. We use 2000 as a conservative limit to account for cookie metadata
 	maxCookieSize = 2000
+
+	// maxCookieValueLength is the ceiling for the encoded value of any single cookie.
+	// Browsers drop a Set-Cookie line longer than 4096 bytes, and that line also carries the
+	// cookie name and its attributes (Path, Expires, Max-Age, HttpOnly, Secure, SameSite: up to
+	// 94 bytes after a name of up to 22 bytes), so the value alone must stay below 4096 - 128.
+	// A session whose encoded value would be longer is not written; Save reports an error.
+	maxCookieValueLength = 4096 - 128
 
 	// absoluteSessionTimeout defines the maximum lifetime of a session
 	// regardless of activity (24 hours)
@@ -151,8 +159,16 @@ func NewSessionManager(encryptionKey string, forceHTTPS bool, logger *Logger) (*
 		return nil, fmt.Errorf("encryption key must be at least %d bytes long", minEncryptionKeyLength)
 	}
 
+	store := sessions.NewCookieStore([]byte(encryptionKey), deriveBlockKey(encryptionKey))
+	// securecookie's default ceiling (4096) counts only the value; keep the whole Set-Cookie line within 4096 bytes.
+	for _, codec := range store.Codecs {
+		if sc, ok := codec.(*securecookie.SecureCookie); ok {
+			sc.MaxLength(maxCookieValueLength)
+		}
+	}
+
 	sm := &SessionManager{
-		store:      sessions.NewCookieStore([]byte(encryptionKey), deriveBlockKey(encryptionKey)),
+		store:      store,
 		forceHTTPS: forceHTTPS,
 		logger:     logger,
 	}
